@@ -164,6 +164,8 @@ type SimConn struct {
 	Closes int
 	// FailSetDeadline makes SetRead/WriteDeadline fail (fault injection).
 	FailSetDeadline bool
+	// FailWriteDeadlineN / FailReadDeadlineN make the next N SetWriteDeadline / SetReadDeadline calls fail (a transient fault).
+	FailWriteDeadlineN, FailReadDeadlineN int
 	// CloseErr, if set, is returned by the first Close although the connection is closed all the same
 	// (like tls.Conn when the close-notify alert cannot be sent).
 	CloseErr error
@@ -312,6 +314,11 @@ func (c *SimConn) SetReadDeadline(t rtime.Time) error {
 	if c.FailSetDeadline {
 		return errors.New("simnet: injected SetReadDeadline failure")
 	}
+	if c.FailReadDeadlineN > 0 {
+		c.FailReadDeadlineN--
+		c.net.sim.Count("net-set-read-deadline-fails")
+		return errors.New("simnet: injected SetReadDeadline failure (transient)")
+	}
 	c.rdl, c.hasR = c.toMono(t)
 	return nil
 }
@@ -322,6 +329,11 @@ func (c *SimConn) SetWriteDeadline(t rtime.Time) error {
 	}
 	if c.FailSetDeadline {
 		return errors.New("simnet: injected SetWriteDeadline failure")
+	}
+	if c.FailWriteDeadlineN > 0 {
+		c.FailWriteDeadlineN--
+		c.net.sim.Count("net-set-write-deadline-fails")
+		return errors.New("simnet: injected SetWriteDeadline failure (transient)")
 	}
 	c.wdl, c.hasW = c.toMono(t)
 	return nil
